@@ -26,6 +26,18 @@ def random_program(rng):
         types = types + ["E"]
         if rng.random() < 0.7:
             preds["re"] = ["E"] + ([rng.choice(types)] if rng.random() < 0.5 else [])
+    # keep the tables small: at most one relation of arity 3 (binary functions count), the others are cut down to arity 2
+    big = 0
+    for n in sorted(funcs):
+        if len(funcs[n][0]) == 2:
+            big += 1
+            if big > 1:
+                funcs[n] = (funcs[n][0][:1], funcs[n][1])
+    for n in sorted(preds):
+        if len(preds[n]) == 3:
+            big += 1
+            if big > 1:
+                preds[n] = preds[n][:2]
     for n, a in preds.items():
         lines.append("pred %s(%s);" % (n, ", ".join(a)))
     for n, (a, r) in funcs.items():
